@@ -43,11 +43,11 @@ def pinch_analysis_service(data: Any, project_name: str = "Project", is_return_f
         tables ready for serialisation.
     """
     # Validate request data using Pydantic model
-    request_data = TargetInput.model_validate(data)
-    if request_data is data:
-        # model_validate returns the caller's own instance; preparation rewrites zone
-        # labels and utility fields in place, so work on a private copy.
-        request_data = data.model_copy(deep=True)
+    # model_validate returns the caller's own instance when given a model, and keeps the
+    # caller's own stream / utility / zone-tree objects when a dictionary already holds
+    # validated instances; preparation rewrites zone labels and utility fields in place,
+    # so always work on a private deep copy.
+    request_data = TargetInput.model_validate(data).model_copy(deep=True)
 
     # Formulate the top level zone with all subzones and approperiate input data
     master_zone = prepare_problem(
